@@ -210,6 +210,8 @@ impl Inner {
 
         let hdr: &MsgHdr = msg.as_slice().try_into().unwrap();
         let now = Instant::now();
+        #[cfg(sl_crypto_verif)]
+        let now = verif_clock::now(now);
         let expire = now + hdr.ttl();
         let id = *hdr.id();
         let kind = if msg.len() == MESSAGE_HEADER_SIZE {
@@ -257,6 +259,8 @@ impl Inner {
         tx: &mpsc::Sender<Vec<u8>>,
     ) -> Option<Vec<u8>> {
         let now = Instant::now();
+        #[cfg(sl_crypto_verif)]
+        let now = verif_clock::now(now);
         let expire = now + ttl;
 
         // we have a locked state, let's cleanup some old entries
@@ -290,6 +294,71 @@ impl Inner {
         }
 
         None
+    }
+}
+
+/// Verification hook: virtual clock for `Inner::send` / `Inner::recv`.
+/// Inactive (returns the real time) until `set_secs` is called.
+#[cfg(sl_crypto_verif)]
+pub mod verif_clock {
+    use std::sync::atomic::{AtomicU64, Ordering};
+    use std::sync::OnceLock;
+    use std::time::{Duration, Instant};
+
+    static BASE: OnceLock<Instant> = OnceLock::new();
+    static SECS: AtomicU64 = AtomicU64::new(u64::MAX);
+
+    pub fn base() -> Instant {
+        *BASE.get_or_init(Instant::now)
+    }
+
+    pub fn set_secs(secs: u64) {
+        base();
+        SECS.store(secs, Ordering::SeqCst);
+    }
+
+    pub fn now(real: Instant) -> Instant {
+        match SECS.load(Ordering::SeqCst) {
+            u64::MAX => real,
+            s => base() + Duration::from_secs(s),
+        }
+    }
+}
+
+/// Verification hook: read-only dump of the relay state.
+#[cfg(sl_crypto_verif)]
+impl SimpleMessageRelay {
+    /// (id, Some(frame) for Ready / None for Waiters, number of waiters, waiters expiry in secs since clock base)
+    #[allow(clippy::type_complexity)]
+    pub fn verif_dump(
+        &self,
+    ) -> (
+        Vec<(MsgId, Option<Vec<u8>>, usize, u64)>,
+        Vec<(u64, MsgId, Kind)>,
+    ) {
+        let inner = self.inner.lock().unwrap();
+        let base = verif_clock::base();
+        let msgs = inner
+            .messages
+            .iter()
+            .map(|(id, e)| match e {
+                MsgEntry::Ready(m) => (*id, Some(m.clone()), 0, 0),
+                MsgEntry::Waiters((exp, w)) => (
+                    *id,
+                    None,
+                    w.len(),
+                    exp.saturating_duration_since(base).as_secs(),
+                ),
+            })
+            .collect();
+        let heap = inner
+            .expire
+            .iter()
+            .map(|Expire(when, id, kind)| {
+                (when.saturating_duration_since(base).as_secs(), *id, *kind)
+            })
+            .collect();
+        (msgs, heap)
     }
 }
 
